@@ -21,7 +21,7 @@ LEVEL_TEXT = (
     "exchange of the roles (complex symmetry)."
 )
 LEVEL_NOTE = "Not decided: equality of assembled matrices 'to rounding' (numerical)."
-EXPLANATION = "rules ASM-REGULAR/ASM-SINGULAR (5 families), REFGRAD, EDGE-CONV, PIOLA, ROLE-SYMMETRY"
+EXPLANATION = "rules ASM-REGULAR/ASM-SINGULAR (5 families), REFGRAD, EDGE-CONV, PIOLA, ROLE-SYMMETRY, ADJ-9"
 ASSUMPTIONS = ["Numba arithmetic semantics", "grid tables (jac_inv_trans, jacobians, normals, integration elements) denote what their names say"]
 
 NK = K.NK
@@ -96,3 +96,4 @@ def run(ctx):
     role_symmetry(ctx)
     rules.factory_sites(ctx, "boundary")
     guards.factory_guards(ctx, "boundary")
+    rules.elements_adjacent_complete(ctx)  # the predicate that routes a pair to the singular rule (ADJ-9)
